@@ -1,5 +1,11 @@
-(** Proofs about the upgrade model Eio/Upgrade.v. *)
-From SioV Require Import Base.GoSem Base.Conc Eio.Upgrade.
+(** Proofs about the upgrade model Eio/Upgrade.v: the invariant of Eio/UpgradeInv.v is inductive
+    (one lemma per label, in the UpgradeInv?*.v files), hence holds in every reachable state, for
+    ALL schedules; at quiescence it gives exactly-once delivery in both directions. *)
+From SioV Require Import Base.GoSem Base.Conc Eio.Upgrade Eio.UpgradeInv.
+From SioV Require Import Eio.UpgradeInvA Eio.UpgradeInvB0 Eio.UpgradeInvB1 Eio.UpgradeInvB2 Eio.UpgradeInvB3
+  Eio.UpgradeInvB4 Eio.UpgradeInvC Eio.UpgradeInvD0 Eio.UpgradeInvD1 Eio.UpgradeInvD2 Eio.UpgradeInvD3
+  Eio.UpgradeInvD4 Eio.UpgradeInvE Eio.UpgradeInvF Eio.UpgradeInvG Eio.UpgradeInvH.
+From Coq Require Import Lia.
 
 (** ** Superseded close *)
 
@@ -26,3 +32,199 @@ Definition sched_commit_cut : list label :=
 Definition sched_timer_race : list label :=
   [CPollStart; GetArrive; GetRoute; GetFirst; CDial; SAccept; CDialOk; SRecvWs; CRecvWs; CSwap;
    STimerFire; SRecvWs; STimerClose; SSend].
+
+(** ** The invariant is inductive *)
+
+Lemma inv_SRecvWs n st st' : inv n st -> step SRecvWs st = Some st' -> inv n st'.
+Proof.
+  intros I H. destruct (s_cand st) eqn:E.
+  - exact (inv_SRecvWs_CNone n st st' E I H).
+  - exact (inv_SRecvWs_CWait n st st' E I H).
+  - exact (inv_SRecvWs_CProbed n st st' E I H).
+  - exact (inv_SRecvWs_CUp n st st' E I H).
+  - exact (inv_SRecvWs_CDead n st st' E I H).
+Qed.
+
+Lemma inv_STimerClose n st st' : inv n st -> step STimerClose st = Some st' -> inv n st'.
+Proof.
+  intros I H. destruct (s_cand st) eqn:E.
+  - exact (inv_STimerClose_CNone n st st' E I H).
+  - exact (inv_STimerClose_CWait n st st' E I H).
+  - exact (inv_STimerClose_CProbed n st st' E I H).
+  - exact (inv_STimerClose_CUp n st st' E I H).
+  - exact (inv_STimerClose_CDead n st st' E I H).
+Qed.
+
+Lemma step_inv n l st st' : inv n st -> step l st = Some st' -> inv n st'.
+Proof.
+  intros I H. destruct l.
+  - exact (inv_SSend n st st' I H).
+  - exact (inv_CSend n st st' I H).
+  - exact (inv_CPollStart n st st' I H).
+  - exact (inv_GetArrive n st st' I H).
+  - exact (inv_GetRoute n st st' I H).
+  - exact (inv_GetFirst n st st' I H).
+  - exact (inv_GetWake n st st' I H).
+  - exact (inv_RespDeliver n st st' I H).
+  - exact (inv_PostDeliver n i st st' I H).
+  - exact (inv_PostOk n st st' I H).
+  - exact (inv_CDial n st st' I H).
+  - exact (inv_SAccept n st st' I H).
+  - exact (inv_CDialOk n st st' I H).
+  - exact (inv_CDialFail n st st' I H).
+  - exact (inv_SRecvWs n st st' I H).
+  - exact (inv_CRecvWs n st st' I H).
+  - exact (inv_CSwap n st st' I H).
+  - exact (inv_SNoopGo n st st' I H).
+  - exact (inv_SDiscGo n st st' I H).
+  - exact (inv_STimerFire n st st' I H).
+  - exact (inv_STimerClose n st st' I H).
+  - exact (inv_CTimerFire n st st' I H).
+  - exact (inv_CTimerClose n st st' I H).
+  - exact (inv_Refuse n st st' I H).
+  - exact (inv_Stall n st st' I H).
+  - exact (inv_Cut n st st' I H).
+  - exact (inv_SSeeCut n st st' I H).
+  - exact (inv_CSeeCut n st st' I H).
+  - exact (inv_SOldClose n st st' I H).
+  - exact (inv_COldClose n st st' I H).
+Qed.
+
+Definition is_init (st : state) : Prop := st = init.
+Definition reach := reachable step is_init.
+
+Lemma reach_inv st : reach st -> forall n, inv n st.
+Proof.
+  intros R n. revert st R. apply invariant_reachable. split.
+  - intros s ->. apply inv_init.
+  - intros s t s' I H. eapply step_inv; eauto.
+Qed.
+
+Lemma run_exec sched st : run sched st = exec step sched st.
+Proof. reflexivity. Qed.
+
+Lemma reach_run sched : reach (run sched init).
+Proof. rewrite run_exec. apply reachable_exec. now apply reach_init. Qed.
+
+(** ** Quiescence *)
+
+Lemma quiescent_disabled st l : quiescentb st = true -> In l internal_fixed -> step l st = None.
+Proof.
+  unfold quiescentb. rewrite forallb_forall. intros H I. specialize (H l I).
+  unfold enabledb in H. destruct (step l st); [discriminate | reflexivity].
+Qed.
+
+(** [quiescentb] is exactly "no internal label is enabled" (every [PostDeliver i] included). *)
+Lemma quiescent_no_internal st :
+  quiescentb st = true ->
+  (forall l, In l internal_fixed -> step l st = None) /\ (forall i, step (PostDeliver i) st = None).
+Proof.
+  intros Hq. split; [intros l; now apply quiescent_disabled|].
+  intros i. assert (D : step (PostDeliver 0) st = None) by (apply (quiescent_disabled st _ Hq); cbn; tauto).
+  cbn in *. destruct (k_posts st); [now destruct i | discriminate].
+Qed.
+
+Ltac dis st Hq l :=
+  let H := fresh "D" in
+  assert (H : step l st = None) by (apply (quiescent_disabled st l Hq); cbn; tauto).
+
+Lemma quiescent_counts n st :
+  inv n st -> broke st = false -> quiescentb st = true ->
+  cntN n (c_recv st) = sent_ind n (s_sent st) /\ cntN n (s_recv st) = sent_ind n (c_sent st).
+Proof.
+  intros I B Hq.
+  dis st Hq CPollStart. dis st Hq GetArrive. dis st Hq GetRoute. dis st Hq GetFirst. dis st Hq GetWake.
+  dis st Hq RespDeliver. dis st Hq (PostDeliver 0). dis st Hq PostOk. dis st Hq SRecvWs. dis st Hq CRecvWs.
+  clear Hq.
+  destruct st; cbn in *. subst broke.
+  assert (Hposts : k_posts = []) by (destruct k_posts; [reflexivity | discriminate]).
+  subst k_posts.
+  destruct I as [i_sc i_cup i_exit i_rl i_wsrl i_tok i_park i_woke i_bad i_up1 i_up2 i_lexit i_open i_cand i_upg i_noupg i_pong i_pre i_closed b_sc b_cs b_pq b_s2c b_c2s].
+  cbn in *. unfold c_committed in *. cbn in *.
+  specialize (b_s2c eq_refl). specialize (b_c2s eq_refl).
+  (* no response in flight *)
+  assert (Hresp : k_resp = RNone).
+  { destruct k_resp as [|l|]; [reflexivity| |];
+      (destruct c_loop; cbn in *; try lia; try (destruct l; discriminate); try discriminate). }
+  subst k_resp. cbn in *. rewrite cnt_nil in b_s2c.
+  destruct s_ws.
+  - (* both on the websocket *)
+    specialize (i_sc eq_refl). subst c_ws.
+    destruct i_cup as [i_cup _]. specialize (i_cup eq_refl). subst c_cand.
+    specialize (i_open eq_refl eq_refl). subst k_ws.
+    specialize (b_pq eq_refl).
+    destruct (i_up2 eq_refl) as [-> | ?]; [|discriminate].
+    assert (k_sc = []) by (destruct k_sc; [reflexivity | discriminate]).
+    assert (k_cs = []) by (destruct k_cs; [reflexivity | discriminate]).
+    subst. rewrite cnt_nil in *. split; lia.
+  - (* both on long-polling *)
+    assert (Hc : c_ws = false).
+    { destruct c_ws; [|reflexivity]. exfalso.
+      destruct i_cup as [i_cup _]. specialize (i_cup eq_refl). subst c_cand.
+      specialize (i_open eq_refl eq_refl). subst k_ws.
+      specialize (i_upg eq_refl eq_refl eq_refl).
+      destruct (i_cand eq_refl eq_refl eq_refl) as [-> | ->];
+        (destruct k_cs as [|[] ?]; cbn in *; try discriminate). }
+    subst c_ws. specialize (b_sc eq_refl). specialize (b_cs eq_refl).
+    assert (Hex : c_exit = false) by (destruct c_exit; [destruct i_exit as [i_exit _]; now specialize (i_exit eq_refl) | reflexivity]).
+    subst c_exit.
+    assert (Hpq : s_pq = []).
+    { destruct c_loop; cbn in *; try discriminate.
+      - destruct k_req; cbn in *.
+        + destruct s_get; cbn in *; try discriminate; lia.
+        + destruct s_get; cbn in *; try discriminate; try lia. now apply i_park.
+      - now specialize (i_lexit eq_refl). }
+    subst s_pq. rewrite cnt_nil in *. split; lia.
+Qed.
+
+
+Lemma quiescent_same st :
+  inv 0%N st -> broke st = false -> quiescentb st = true -> c_ws st = s_ws st.
+Proof.
+  intros I0 B Hq.
+  dis st Hq SRecvWs.
+  clear Hq.
+  destruct st; cbn in *. subst broke.
+  destruct I0 as [i_sc i_cup i_exit i_rl i_wsrl i_tok i_park i_woke i_bad i_up1 i_up2 i_lexit i_open i_cand i_upg i_noupg i_pong i_pre i_closed b_sc b_cs b_pq b_s2c b_c2s].
+  cbn in *. unfold c_committed in *. cbn in *.
+  destruct c_ws, s_ws; try reflexivity.
+  - exfalso. destruct i_cup as [i_cup _]. specialize (i_cup eq_refl). subst c_cand.
+    specialize (i_open eq_refl eq_refl). subst k_ws.
+    specialize (i_upg eq_refl eq_refl eq_refl).
+    destruct (i_cand eq_refl eq_refl eq_refl) as [-> | ->];
+      (destruct k_cs as [|[] ?]; cbn in *; try discriminate).
+  - specialize (i_sc eq_refl). discriminate.
+Qed.
+
+Theorem exactly_once_at_quiescence sched :
+  let st := run sched init in
+  broke st = false -> quiescentb st = true ->
+  delivered_exactly_once st /\ c_closed st = false /\ s_closed st = false /\ c_ws st = s_ws st.
+Proof.
+  intros st B Hq. pose proof (reach_inv st (reach_run sched)) as I.
+  assert (Hc : forall n, cntN n (c_recv st) = sent_ind n (s_sent st) /\ cntN n (s_recv st) = sent_ind n (c_sent st))
+    by (intros n; now apply quiescent_counts).
+  pose proof (quiescent_same st (I 0%N) B Hq) as Hs.
+  destruct (i_closed _ _ (I 0%N) B) as [C1 C2].
+  repeat split; try assumption; apply Hc.
+Qed.
+
+(** A refused / stalled / cut / timed-out attempt that did not hit the commit window leaves both
+    sides on long-polling with the socket open - in every reachable state, whatever the schedule. *)
+Theorem failed_upgrade_keeps_transport sched :
+  let st := run sched init in
+  broke st = false ->
+  (k_ws st = WRefused \/ k_ws st = WStalled \/ k_ws st = WCut) ->
+  c_ws st = false /\ s_ws st = false /\ c_closed st = false /\ s_closed st = false.
+Proof.
+  intros st B W. pose proof (reach_inv st (reach_run sched) 0%N) as I.
+  destruct (i_closed _ _ I B) as [C1 C2].
+  assert (Hc : c_ws st = false).
+  { destruct (c_ws st) eqn:E; [|reflexivity]. exfalso.
+    pose proof (proj1 (i_cup _ _ I) E) as K.
+    assert (O : k_ws st = WOpen) by (apply (i_open _ _ I); [unfold c_committed; now rewrite K | exact B]).
+    rewrite O in W. destruct W as [W|[W|W]]; discriminate. }
+  assert (Hs : s_ws st = false).
+  { destruct (s_ws st) eqn:E; [|reflexivity]. rewrite (i_sc _ _ I E) in Hc. discriminate. }
+  auto.
+Qed.
